@@ -106,11 +106,39 @@ def solve_smt2(o, timeout_ms=20000, cvc5=True, both=False):
     """discharge one obligation given as SMT-LIB2 text (dict in / dict out; runs in a pool worker)"""
     t0 = time.time()
     smt2 = o.pop('smt2')
-    s = z3.Solver()
-    s.set('timeout', timeout_ms)
-    s.from_string(smt2)
-    r = s.check()
-    o['backend'] = 'z3'
+    lite = o.pop('smt2_lite', None)
+    mid = o.pop('smt2_mid', None)
+    if o['kind'] != 'cover':
+        for text, name in ((lite, 'z3(lite)'), (mid, 'z3(mid)')):
+            if text is None:
+                continue
+            for opts in ({}, {'smt.ematching': False}):
+                s = z3.Solver()
+                s.set('timeout', int(min(timeout_ms, 3000)))
+                for k_, v_ in opts.items():
+                    s.set(k_, v_)
+                s.from_string(text)
+                if s.check() == z3.unsat:
+                    o['status'] = 'proved'
+                    o['backend'] = name
+                    o['time'] = round(time.time() - t0, 4)
+                    return o
+    # portfolio: default configuration with a short budget, then MBQI without E-matching (E-matching loops on the
+    # array/lambda-heavy heap encodings are the usual reason for a time-out), then the default configuration again
+    plan = [({}, min(timeout_ms, 2500), 'z3'), ({'smt.ematching': False}, timeout_ms // 2, 'z3(mbqi)'),
+            ({}, timeout_ms, 'z3')]
+    r = z3.unknown
+    s = None
+    for opts, tmo, name in plan:
+        s = z3.Solver()
+        s.set('timeout', int(tmo))
+        for k_, v_ in opts.items():
+            s.set(k_, v_)
+        s.from_string(smt2)
+        r = s.check()
+        o['backend'] = name
+        if r != z3.unknown:
+            break
     if o['kind'] == 'cover':
         o['status'] = 'proved' if r == z3.sat else ('vacuous' if r == z3.unsat else 'proved')
         if r == z3.unknown:
